@@ -265,6 +265,16 @@ func consWitnesses() []*Program {
 		mk(ConsSchema{Uniques: [][]int{{1}}}, x(2, "CALL dolt_checkout('br')"), x(2, "INSERT INTO c VALUES (1,0,7,0)"), x(2, "CALL dolt_commit('-Am','b')"), x(2, "CALL dolt_checkout('main')"), x(2, "INSERT INTO c VALUES (2,0,7,0)"), x(2, "CALL dolt_commit('-Am','m')"), x(2, "CALL dolt_merge('br')")),
 		// branch merge: child added on one branch, parent deleted on the other
 		mk(ConsSchema{FKs: []int{2}}, x(2, "INSERT INTO p VALUES (1,1)"), x(2, "CALL dolt_commit('-Am','p')"), x(2, "CALL dolt_checkout('br')"), x(2, "CALL dolt_merge('main')"), x(2, "INSERT INTO c VALUES (1,0,0,1)"), x(2, "CALL dolt_commit('-Am','b')"), x(2, "CALL dolt_checkout('main')"), x(2, "DELETE FROM p WHERE pk=1"), x(2, "CALL dolt_commit('-Am','m')"), x(2, "CALL dolt_merge('br')")),
+		// data conflict on the FK PARENT table (theirs deleted the row, ours modified it) while a merged child row
+		// references it; resolved with --theirs (removes the parent row) / --ours
+		mk(ConsSchema{FKs: []int{2}}, x(2, "INSERT INTO p VALUES (1,1)"), x(2, "INSERT INTO p VALUES (2,1)"), x(2, "CALL dolt_commit('-Am','base')"), x(2, "CALL dolt_checkout('br')"), x(2, "CALL dolt_merge('main')"),
+			x(2, "DELETE FROM p WHERE pk=1"), x(2, "UPDATE p SET v=7 WHERE pk=2"), x(2, "CALL dolt_commit('-Am','b')"),
+			x(2, "CALL dolt_checkout('main')"), x(2, "UPDATE p SET v=2 WHERE pk=1"), x(2, "UPDATE p SET v=8 WHERE pk=2"), x(2, "INSERT INTO c VALUES (1,0,0,1)"), x(2, "CALL dolt_commit('-Am','m')"),
+			x(2, "CALL dolt_merge('br')"), x(2, "CALL dolt_conflicts_resolve('--theirs','p')"), x(2, "CALL dolt_commit('-Am','resolved')")),
+		mk(ConsSchema{FKs: []int{2}}, x(2, "INSERT INTO p VALUES (1,1)"), x(2, "CALL dolt_commit('-Am','base')"), x(2, "CALL dolt_checkout('br')"), x(2, "CALL dolt_merge('main')"),
+			x(2, "UPDATE p SET v=2 WHERE pk=1"), x(2, "INSERT INTO c VALUES (1,0,0,1)"), x(2, "CALL dolt_commit('-Am','b')"),
+			x(2, "CALL dolt_checkout('main')"), x(2, "DELETE FROM p WHERE pk=1"), x(2, "CALL dolt_commit('-Am','m')"),
+			x(2, "CALL dolt_merge('br')"), x(2, "CALL dolt_conflicts_resolve('--ours','p')"), x(2, "CALL dolt_commit('-Am','resolved')")),
 		// the RIGHT side re-adds an existing index as UNIQUE; a left row and a right row collide only after the merge
 		mk(ConsSchema{PlainIx: true}, x(2, "INSERT INTO c VALUES (1,0,1,0)"), x(2, "CALL dolt_commit('-Am','base')"), x(2, "CALL dolt_checkout('br')"), x(2, "CALL dolt_merge('main')"),
 			x(2, "ALTER TABLE c DROP INDEX ix1"), x(2, "ALTER TABLE c ADD UNIQUE INDEX ix1 (c1)"), x(2, "INSERT INTO c VALUES (2,0,5,0)"), x(2, "CALL dolt_commit('-Am','b')"),
@@ -352,6 +362,16 @@ func genConsProgram(r *hx.Rng) *Program {
 				u = "UNIQUE "
 			}
 			p.Stmts = append(p.Stmts, XStmt{S: 2, SQL: "ALTER TABLE c DROP INDEX " + ix}, XStmt{S: 2, SQL: fmt.Sprintf("ALTER TABLE c ADD %sINDEX %s (%s)", u, ix, cols)})
+		case x >= 49 && x < 53 && !open[0] && !open[1]:
+			// conflicts on the parent (and child) table: concurrent edits of p.v on both branches, then resolution
+			switch r.Intn(3) {
+			case 0:
+				p.Stmts = append(p.Stmts, XStmt{S: 2, SQL: fmt.Sprintf("UPDATE p SET v=%d WHERE pk=%d", r.Intn(9), r.Range(0, 3))})
+			case 1:
+				p.Stmts = append(p.Stmts, XStmt{S: 2, SQL: fmt.Sprintf("DELETE FROM p WHERE pk=%d", r.Range(0, 3))})
+			default:
+				p.Stmts = append(p.Stmts, XStmt{S: 2, SQL: fmt.Sprintf("CALL dolt_conflicts_resolve('%s','%s')", hx.Pick(r, []string{"--ours", "--theirs"}), hx.Pick(r, []string{"p", "p", "c"}))})
+			}
 		case x < 46 && !open[0] && !open[1]:
 			// schema change on whatever branch session 2 is on: a column becomes NOT NULL / nullable again
 			col := r.Intn(3)
